@@ -454,6 +454,9 @@ class Interp:
             return bool(v)
         if isinstance(v, Model) and hasattr(v, "truth"):
             return v.truth(self)
+        if isinstance(v, Model) and hasattr(v, "m___len__"):
+            # Python: an object with __len__ and no __bool__ is true iff its length is not zero
+            return self.truth(v.m___len__(self))
         if isinstance(v, (Obj, Model)):
             return True
         return bool(v)
